@@ -67,6 +67,12 @@ class Codecs:
     _iterlines = re.compile(r'[^\n]*(?:\n|\Z)').findall
     _atypical_comment = re.compile(r'#[^ .:,|~]').match
 
+    @staticmethod
+    def _is_ignored_comment(line):
+        # comment lines that polib skips without processing them
+        tokens = line.split(None, 1)
+        return tokens[0] == '#~|' or tokens in (['#.'], ['#:'], ['#,'])
+
     def __getattr__(self, attr):
         return getattr(codecs, attr)
 
@@ -83,7 +89,7 @@ class Codecs:
         for line in self._iterlines(contents):
             if self._atypical_comment(line):
                 line = '# ' + line[1:]
-            if line[:2] in {'', '# '} or line.isspace():
+            if line[:2] in {'', '# '} or line.isspace() or self._is_ignored_comment(line):
                 pending_comments += [line]
             else:
                 yield from pending_comments
